@@ -139,10 +139,13 @@ type options struct {
 	seed        int64
 	native      bool
 	nsamples    int
+	cross       string // second solver for the cross-check ("" = none)
+	crossMax    int
 }
 
 // Summary is what one property check produced.
 type Summary struct {
+	CrossChecked int
 	Runs        []*RunResult
 	Violations  []Failure
 	Known       []Failure
@@ -182,7 +185,7 @@ func runChecks(l *Loaded, specs []*RunSpec, known []KnownFinding, opt options) *
 			continue
 		}
 		spec.fn = p.Func(spec.Harness)
-		res := explore(l.prog, spec, opt.workers, known, opt.seed, opt.nsamples)
+		res := explore(l.prog, spec, opt.workers, known, opt.seed, opt.nsamples, os.Getenv("GOSYM_SOLVER"))
 		sum.Runs = append(sum.Runs, res)
 		fmt.Printf("  %-70s paths=%d branches=%d queries=%d solver=%.1fs wall=%.1fs fails=%d\n", spec.String(), res.Paths, res.Branches, res.Queries, res.SolverS, res.WallS, len(res.Fails))
 		if res.Err != "" {
@@ -191,6 +194,18 @@ func runChecks(l *Loaded, specs []*RunSpec, known []KnownFinding, opt options) *
 		}
 		if res.Incomplete != "" {
 			sum.Problems = append(sum.Problems, spec.String()+": incomplete: "+res.Incomplete)
+		}
+		// second solver on the same encoding (thorough tier): same feasible paths, same failing obligations
+		if opt.cross != "" && res.Incomplete == "" && res.Paths <= opt.crossMax {
+			r2 := explore(l.prog, spec, opt.workers, known, opt.seed, 0, opt.cross)
+			res.CrossSolver, res.CrossPaths, res.CrossS = opt.cross, r2.Paths, r2.WallS
+			if r2.Err != "" {
+				sum.Problems = append(sum.Problems, spec.String()+": "+opt.cross+": "+r2.Err)
+			} else if r2.Paths != res.Paths || len(r2.Fails) != len(res.Fails) {
+				sum.Problems = append(sum.Problems, fmt.Sprintf("%s: solvers disagree: z3 %d paths/%d failing, %s %d paths/%d failing", spec.String(), res.Paths, len(res.Fails), opt.cross, r2.Paths, len(r2.Fails)))
+			} else {
+				sum.CrossChecked++
+			}
 		}
 		if res.Paths == 0 {
 			sum.Problems = append(sum.Problems, spec.String()+": vacuous: no feasible path")
@@ -337,6 +352,8 @@ func commonFlags(fs *flag.FlagSet, opt *options) {
 	fs.StringVar(&opt.out, "out", "", "directory for evidence/ and replays/ (default: the verification directory)")
 	fs.IntVar(&opt.workers, "workers", 16, "parallel workers (one solver process each)")
 	fs.BoolVar(&opt.native, "native", true, "replay counterexamples and sampled paths against the native build")
+	fs.StringVar(&opt.cross, "cross", "", "re-explore small harnesses with a second solver (z3-new | cvc5) and require identical paths and failures")
+	fs.IntVar(&opt.crossMax, "cross-max-paths", 3000, "largest harness (in paths) that is cross-checked")
 	fs.IntVar(&opt.nsamples, "samples", 24, "passing paths per harness replayed natively (translator validation)")
 }
 
@@ -464,6 +481,9 @@ func cmdCheck(args []string) int {
 	}
 	if s := os.Getenv("VERIF_SEED"); s != "" {
 		opt.seed, _ = strconv.ParseInt(s, 10, 64)
+	}
+	if *tier == "thorough" && opt.cross == "" && os.Getenv("GOSYM_NOCROSS") == "" {
+		opt.cross = "z3-new"
 	}
 	t0 := time.Now()
 	all, err := parseProps(filepath.Join(opt.verif, "harness", "props.txt"))
